@@ -40,6 +40,20 @@ Record aentry := mkAllow {
 Definition find_var (tbl : list ventry) (v : string) : option ventry :=
   find (fun e => String.eqb (v_name e) v) tbl.
 
+(* Local variables that a function shares with goroutines it starts
+   (captured by a go / time.AfterFunc literal, or a map/slice handed to a go
+   statement; translator names "local:<function>:<name>") have a DEFAULT
+   discipline unless the table lists them: immutable once published, i.e.
+   written only before the go statement that publishes this instance
+   (a_fresh). *)
+Definition lookup_var (tbl : list ventry) (v : string) : option ventry :=
+  match find_var tbl v with
+  | Some e => Some e
+  | None => if String.prefix "local:" v
+            then Some (mkVar v DImmutable [] [] "default for locals shared with goroutines")
+            else None
+  end.
+
 (* the site may modify the variable *)
 Definition site_writes (e : ventry) (a : asite) : bool :=
   match a_kind a with
